@@ -50,13 +50,17 @@ def run_case(case):
         except Exception as e:  # noqa: BLE001
             return {"skip": type(e).__name__ + ": " + str(e)[:100]}
         rng = random.Random(case["seed"])
-        script, aff = [], []
+        script, aff, renum = [], [], []
         try:
             for _ in range(case["nedits"]):
                 e = edits.gen_edit(rng, p1, case.get("kinds"))
                 if e is None:
                     break
                 a = edits.affected(p1, e)
+                if e[0].endswith("_number"):
+                    coll = {"cell_number": p1.cells, "surface_number": p1.surfaces, "material_number": p1.materials,
+                            "transform_number": p1.transforms, "universe_number": p1.universes}[e[0]]
+                    renum.append([coll.objects[e[1]].number, e[2]])
                 edits.apply(p1, e)
                 script.append(e)
                 aff.append(sorted(map(lambda x: list(x) if isinstance(x, tuple) else x, a), key=str))
@@ -66,17 +70,33 @@ def run_case(case):
             w1 = wholefile.write_text(p1, sc, "w1.imcnp")
         except Exception as e:  # noqa: BLE001
             return {"skip": "edited write raised " + type(e).__name__ + ": " + str(e)[:100], "script": script}
-    return {"w0": w0, "w1": w1, "script": script, "affected": aff, "data_owner": owners}
+    return {"w0": w0, "w1": w1, "script": script, "affected": aff, "data_owner": owners, "renumberings": renum}
 
 
 def _words(card):
     return [w.lower() for w in card["words"]]
 
 
-def _ndiff(a, b):
-    """number of differing words (positional when lengths agree, else by multiset difference)"""
+def _digits(w):
+    import re
+
+    m = re.fullmatch(r"([^0-9]*)([0-9]+)([^0-9]*)", w)
+    return (m.group(1), int(m.group(2)), m.group(3)) if m else None
+
+
+def _ndiff(a, b, renum=()):
+    """number of differing words that a renumbering old->new of a referenced object does not explain
+    (positional when lengths agree, else by multiset difference)"""
     if len(a) == len(b):
-        return sum(1 for x, y in zip(a, b) if x != y)
+        n = 0
+        for x, y in zip(a, b):
+            if x == y:
+                continue
+            dx, dy = _digits(x), _digits(y)
+            if dx and dy and dx[0] == dy[0] and dx[2] == dy[2] and any(dx[1] == o and dy[1] == nw for o, nw in renum):
+                continue
+            n += 1
+        return n
     from collections import Counter
 
     ca, cb = Counter(a), Counter(b)
@@ -92,7 +112,11 @@ def judge(case, r, cards):
     for a in r["affected"]:
         for x in a:
             aff.add(tuple(x) if isinstance(x, list) else x)
-    budget = sum(BUDGET.get(e[0], 2) for e in r["script"])
+    budget = sum(BUDGET.get(e[0], 2) for e in r["script"] if not e[0].endswith("_number"))
+    # chains old->mid->new of successive renumberings of one object are closed transitively
+    renum = [tuple(x) for x in r.get("renumberings", [])]
+    for _ in range(len(renum)):
+        renum += [(a, d) for a, b in renum for c, d in renum if b == c and (a, d) not in renum]
     kinds = sorted({e[0] for e in r["script"]})
     base = {"mechanism": "locality", "edits": kinds[0] if len(kinds) == 1 else "script"}
     if c0["title"] != c1["title"] and "title" not in aff:
@@ -101,6 +125,16 @@ def judge(case, r, cards):
         out.append((dict(base, **{"class": "untouched-input-changed", "input": "message"}), "message changed"))
     owners = r["data_owner"]
     for blk, tag in (("cells", "cell"), ("surfaces", "surface"), ("data", "data")):
+        if blk == "data" and "celldata" in aff and len(c0[blk]) != len(c1[blk]):
+            # per-cell data cards may be split, combined, created or dropped when per-cell data are edited:
+            # compare the other data cards, in order
+            def other(cs):
+                return [c for c in cs if not (_words(c) and _words(c)[0].lstrip("*").split(":")[0].rstrip("0123456789") in PER_CELL)]
+
+            if [(_words(c), c["dollar"], c["ccomments"]) for c in other(c0[blk])] != [(_words(c), c["dollar"], c["ccomments"]) for c in other(c1[blk])]:
+                if not any(a[0] == "data" for a in aff if isinstance(a, tuple)):
+                    out.append((dict(base, **{"class": "untouched-input-changed", "input": "data"}), "a data input that lists no per-cell data changed while per-cell cards were re-arranged"))
+            continue
         if len(c0[blk]) != len(c1[blk]):
             out.append((dict(base, **{"class": "input-count-changed", "input": tag}), f"{blk}: {len(c0[blk])} -> {len(c1[blk])} inputs"))
             continue
@@ -126,7 +160,7 @@ def judge(case, r, cards):
                 if not same_comments:
                     out.append((dict(base, **{"class": "comments-of-edited-input-changed", "input": tag}),
                                 f"{tag}[{i}] comments {x['dollar']}/{x['ccomments']} -> {y['dollar']}/{y['ccomments']}"))
-                n = _ndiff(wx, wy)
+                n = _ndiff(wx, wy, renum)
                 if n > budget and not (tag == "data" and "celldata" in aff):
                     out.append((dict(base, **{"class": "too-many-words-changed", "input": tag}),
                                 f"{tag}[{i}]: {n} words differ, the edits {r['script']} can touch at most {budget}: {' '.join(x['words'])[:80]!r} -> {' '.join(y['words'])[:80]!r}"))
